@@ -168,11 +168,11 @@ def __str_to_derivable_program__(
     word: str, primitives_used: Set[Primitive], variables: TList[Variable]
 ) -> TList[DerivableProgram]:
     all_primitives = sorted(primitives_used, key=lambda p: p.primitive, reverse=True)
+    word = word.strip("(){}")
     if word == SYMBOL_ANYTHING:
         out: TList[DerivableProgram] = all_primitives  # type: ignore
         out += variables
         return out
-    word = word.strip("(){}")
     allowed = set(
         [word] if not SYMBOL_SEPARATOR in word else word.split(SYMBOL_SEPARATOR)
     )
@@ -191,7 +191,7 @@ def __interpret_word__(
 ) -> Token:
     word = word.strip()
     if word.startswith(SYMBOL_FORBIDDEN):
-        forbidden = set(word[1:].split(SYMBOL_SEPARATOR))
+        forbidden = set(word[1:].strip("(){}").split(SYMBOL_SEPARATOR))
         out: TList[DerivableProgram] = [
             P for P in primitives_used if P.primitive not in forbidden
         ]
